@@ -994,7 +994,8 @@ func (interp *Interpreter) cfg(root *node, sc *scope, importPath, pkgName string
 				// Allocate a new location in frame, and store the result here.
 				n.findex = sc.add(n.typ)
 			}
-			if n.typ != nil && !n.typ.untyped {
+			if n.typ != nil && !n.typ.untyped && !isBoolAction(n) {
+				// The boolean result type of a comparison is unrelated to the type of its operands.
 				fixUntyped(n, sc)
 			}
 
